@@ -379,6 +379,14 @@ def _suites_for(secret: bytes) -> list[CipherSuite]:
     return [CipherSuite.AES_128_GCM_SHA256, CipherSuite.CHACHA20_POLY1305_SHA256]
 
 
+def _clone_context(ctx: CryptoContext) -> CryptoContext:
+    """Independent copy sharing the (immutable) AEAD / header-protection objects."""
+    new = CryptoContext(key_phase=ctx.key_phase)
+    new.aead, new.hp = ctx.aead, ctx.hp
+    new.cipher_suite, new.secret, new.version = ctx.cipher_suite, ctx.secret, ctx.version
+    return new
+
+
 class _KeySlot:
     """All we know about one (sender, epoch) traffic secret."""
 
@@ -517,7 +525,9 @@ class WireObserver:
         slots = self._slots.get((sender, epoch)) or []
         if slots and slots[-1].previous is not None and slots[-1].previous.key_phase == key_phase:
             return slots[-1].previous
-        return next_key_phase(ctx)
+        ahead = _clone_context(ctx)
+        apply_key_phase(ahead, next_key_phase(ahead), trigger="observer")
+        return ahead
 
     # -- feeding ---------------------------------------------------------------
 
@@ -626,25 +636,7 @@ class WireObserver:
                     break
         else:
             for slot in reversed(self._slots.get((sender, ptype), [])):
-                for ctx in slot.contexts():
-                    result = self._try(ctx, raw, encrypted_off, expected)
-                    if result is None:
-                        continue
-                    updated = result[3]
-                    if slot.current is None:
-                        slot.current = ctx
-                        slot.pinned = (ctx.cipher_suite, ctx.version)
-                        slot.candidates = {}
-                    if updated and ctx is slot.current:
-                        # packet is protected with the next key generation
-                        old = CryptoContext(key_phase=ctx.key_phase)
-                        old.aead, old.hp = ctx.aead, ctx.hp
-                        old.cipher_suite, old.secret, old.version = (
-                            ctx.cipher_suite, ctx.secret, ctx.version)
-                        slot.previous = old
-                        apply_key_phase(ctx, next_key_phase(ctx), trigger="observer")
-                        slot.generation += 1
-                    break
+                result = self._try_slot(slot, raw, encrypted_off, expected, ptype)
                 if result is not None:
                     break
         if result is None:
@@ -677,6 +669,47 @@ class WireObserver:
                 if top > self.crypto_sent.get(ck, 0):
                     self.crypto_sent[ck] = top
         return pkt
+
+    def _try_slot(
+        self, slot: _KeySlot, raw: bytes, encrypted_off: int, expected: int, ptype: str
+    ) -> Optional[tuple[bytes, bytes, int, bool]]:
+        """Try every key generation of ``slot`` that could protect the packet and
+        move the slot forward when a newer generation turns out to be in use."""
+        for ctx in slot.contexts():
+            result = self._try(ctx, raw, encrypted_off, expected)
+            if result is None:
+                continue
+            if slot.current is None:
+                slot.current = ctx
+                slot.pinned = (ctx.cipher_suite, ctx.version)
+                slot.candidates = {}
+            if result[3] and ctx is slot.current:
+                self._rotate(slot, 1)  # protected with the next generation
+            return result
+        if ptype != "1rtt" or slot.current is None:
+            return None
+        # A sender can advance by more than one generation between two packets
+        # we get to see (peer-initiated update followed by a local one with
+        # nothing sent in between): look a few generations ahead.
+        probe = _clone_context(slot.current)
+        for ahead in range(1, 5):
+            # a key update changes the AEAD key only; header protection stays
+            apply_key_phase(probe, next_key_phase(probe), trigger="observer")
+            result = self._try(probe, raw, encrypted_off, expected)
+            if result is None:
+                continue
+            self._rotate(slot, ahead + (1 if result[3] else 0))
+            return result
+        return None
+
+    @staticmethod
+    def _rotate(slot: _KeySlot, generations: int) -> None:
+        ctx = slot.current
+        assert ctx is not None
+        for _ in range(generations):
+            slot.previous = _clone_context(ctx)
+            apply_key_phase(ctx, next_key_phase(ctx), trigger="observer")
+            slot.generation += 1
 
     @staticmethod
     def _try(
